@@ -344,7 +344,7 @@ type raw struct{ s string }
 
 // replacement values: typed, boundary, structural
 func replacements() []any {
-	return []any{nil, true, 0.0, -1.0, 1.0, raw{"1e400"}, raw{"9223372036854775808"}, raw{"-9223372036854775809"}, "", "x", "_id", "a.b", []any{}, []any{[]any{}}, map[string]any{}, []any{"x", 1.0}, 4096.0, 4097.0, 76.0, 101.0, 10001.0, 24.0,
+	return []any{nil, true, 0.0, -1.0, 1.0, raw{"1e400"}, raw{"9223372036854775808"}, raw{"-9223372036854775809"}, raw{"9223372036854775807"}, raw{"-9223372036854775808"}, "", "x", "_id", "a.b", []any{}, []any{[]any{}}, map[string]any{}, []any{"x", 1.0}, 4096.0, 4097.0, 76.0, 101.0, 10001.0, 24.0,
 		"nope", "_and", "near", "00000000-0000-0000-0000-00000000000", p1, math.MaxFloat64, -0.0, 1e-320, "a..b", strings.Repeat("z", 3000)}
 }
 
@@ -499,6 +499,10 @@ func toMsgpack(v any) ([]byte, bool) {
 				return math.Inf(1)
 			case "9223372036854775808":
 				return uint64(1 << 63)
+			case "9223372036854775807":
+				return int64(math.MaxInt64)
+			case "-9223372036854775808":
+				return int64(math.MinInt64)
 			default:
 				ok = false
 				return nil
@@ -577,6 +581,9 @@ func mustReject(b base, path string, val any, orig any, enc string) bool {
 	v2 := !strings.HasPrefix(b.Name, "v1")
 	isNum := func() (float64, bool) {
 		if r, ok := val.(raw); ok {
+			if strings.HasPrefix(r.s, "-") {
+				return -9.3e18, true
+			}
 			return 9.3e18, r.s != "1e400" || enc == "msgpack"
 		}
 		f, ok := val.(float64)
@@ -946,7 +953,7 @@ func (t *tester) misc(which int) {
 
 func master(cfg *harness.Config, rep *harness.Report) {
 	rep.Level = "exploration"
-	rep.Rule = "(a) every byte string of length <= L over a structural alphabet (JSON: { } [ ] \" : , 1 - e . a \\\\ space; MessagePack: fixmap/fixarray/str/nil/bool/float/int/array16/map16 lead bytes) as the body of each of the 10 body-taking routes of both API versions; (b) for 11 valid base requests (v2 create / insert / update / delete / hybrid search with nested filters, select, sort, paging / binary flat search; v1 create / insert / update / delete / search) every node of the request tree deleted or replaced by each of 32 values (null, booleans, 0, ±1, 1e400, 2^63, empty / reserved / dotted / 3000-byte strings, empty and nested arrays and objects, boundary numbers 24/76/101/4096/4097/10001, malformed and valid uuids, ...), in JSON and MessagePack, plus duplicate keys; (c) header / content-type variants, body-less and unknown routes, every v1 route on a v2 collection and vice versa, v1 searches with every boundary limit on a v1-shaped collection created through v2 with searchSize 25, quota and size limits, vector lengths 1/4096/4097, composite queries that carry both sub-query lists (the executed one has a schema-violating member), index entries with a superfluous parameter block of another type (the dimension in force is the one of the entry's type), nesting depth 10..10^6. Oracle: never a 5xx or a dead worker; requests that certainly violate the schema must get 4xx; after any 4xx the digest of all collections and points is unchanged; unmodified base requests succeed. distinct_nontrivial = distinct (route, status class, expectation) tuples"
+	rep.Rule = "(a) every byte string of length <= L over a structural alphabet (JSON: { } [ ] \" : , 1 - e . a \\\\ space; MessagePack: fixmap/fixarray/str/nil/bool/float/int/array16/map16 lead bytes) as the body of each of the 10 body-taking routes of both API versions; (b) for 11 valid base requests (v2 create / insert / update / delete / hybrid search with nested filters, select, sort, paging / binary flat search; v1 create / insert / update / delete / search) every node of the request tree deleted or replaced by each of 34 values (null, booleans, 0, ±1, 1e400, 2^63, 2^63-1, -2^63, empty / reserved / dotted / 3000-byte strings, empty and nested arrays and objects, boundary numbers 24/76/101/4096/4097/10001, malformed and valid uuids, ...), in JSON and MessagePack, plus duplicate keys; (c) header / content-type variants, body-less and unknown routes, every v1 route on a v2 collection and vice versa, v1 searches with every boundary limit on a v1-shaped collection created through v2 with searchSize 25, quota and size limits, vector lengths 1/4096/4097, composite queries that carry both sub-query lists (the executed one has a schema-violating member), index entries with a superfluous parameter block of another type (the dimension in force is the one of the entry's type), nesting depth 10..10^6. Oracle: never a 5xx or a dead worker; requests that certainly violate the schema must get 4xx; after any 4xx the digest of all collections and points is unchanged; unmodified base requests succeed. distinct_nontrivial = distinct (route, status class, expectation) tuples"
 	rep.Assumptions = []string{"the grammar is bounded: L<=4 (quick) / 5 (thorough) for JSON and for MessagePack; single mutations only", "one node, two users", "body sizes stay below 12 MB (no request-size limit exists in the server: memory exhaustion by huge bodies is not explored)"}
 	p := pool.New(pool.Options{CPUsPerWorker: 2, JobTimeout: 300 * time.Second, MemLimitKB: 8 << 20})
 	var jobs []job
